@@ -24,6 +24,7 @@ import (
 
 type vfTurnSend struct {
 	Actor   int  `json:"actor"`
+	Sender  int  `json:"sender"`            // sender identity (shared between producer threads: fair mailbox sub-queues)
 	Control bool `json:"control,omitempty"` // a control message (system mailbox path)
 	Yields  int  `json:"yields,omitempty"`  // scheduling points inside the handler
 }
@@ -54,6 +55,7 @@ func vfTurnGen(kinds []string) func(t *rapid.T) vfTurnCase {
 			for i := 0; i < n; i++ {
 				ss = append(ss, vfTurnSend{
 					Actor:   rapid.IntRange(0, c.Actors-1).Draw(t, "actor"),
+					Sender:  rapid.IntRange(0, 1).Draw(t, "sender"),
 					Control: rapid.IntRange(0, 9).Draw(t, "control") == 0,
 					Yields:  rapid.SampledFrom([]int{0, 0, 1, 2}).Draw(t, "yields"),
 				})
@@ -140,7 +142,7 @@ func vfTurnExec(x *vfkit.X, c vfTurnCase) *vfTurnResult {
 	clock := &vfe3.Clock{}
 	inHandler := make([]int, c.Actors)
 	pids := make([]*PID, c.Actors)
-	senders := make([]*PID, len(c.Producers))
+	senders := make([]*PID, 2)
 	for i := range senders {
 		senders[i] = &PID{path: newPath(address.New(fmt.Sprintf("sender%d", i), "vf", "127.0.0.1", 1))}
 	}
@@ -191,13 +193,13 @@ func vfTurnExec(x *vfkit.X, c vfTurnCase) *vfTurnResult {
 			for _, snd := range sends {
 				rc := getContext()
 				if snd.Control {
-					rc.build(context.Background(), senders[pi], pids[snd.Actor], &PausePassivation{}, true)
+					rc.build(context.Background(), senders[snd.Sender], pids[snd.Actor], &PausePassivation{}, true)
 				} else {
 					m := &vfTurnMsg{ID: nextID, Actor: snd.Actor, Producer: pi, Seq: seq, Yields: snd.Yields}
 					nextID++
 					seq++
 					res.Sent = append(res.Sent, *m)
-					rc.build(context.Background(), senders[pi], pids[snd.Actor], m, true)
+					rc.build(context.Background(), senders[snd.Sender], pids[snd.Actor], m, true)
 				}
 				pids[snd.Actor].doReceive(rc)
 				vfsched.OpEnd()
